@@ -34,7 +34,43 @@ def states(tier):
     if True:
         for lab in ("periph_add", "elim_mm", "transits_3", "lag_on", "abs_zo", "bio_add"):
             st.append(("pheno_nocov_oral", (lab,)))
+    # states that already carry one covariate effect on a parameter (the next effect on the same parameter is merged into
+    # the existing statement; additive after multiplicative and the other way round)
+    for lab in LOCAL_OPS:
+        st.append(("pheno_nocov", (lab,)))
     return st
+
+
+LOCAL_OPS = {
+    "cov_cl_wgt_lin_add": ("CL", "WGT", "lin", "+"),
+    "cov_cl_apgr_exp_mul": ("CL", "APGR", "exp", "*"),
+    "cov_vc_wgt_pow_mul": ("VC", "WGT", "pow", "*"),
+    "cov_vc_apgr_lin_add": ("VC", "APGR", "lin", "+"),
+}
+
+
+def build_state(hist):
+    import warnings
+
+    import pharmpy.modeling as pm
+    from vlib import mgraph
+
+    start, labels = hist
+    m = mgraph.build((start, ()))
+    for lab in labels:
+        if m is None:
+            return None
+        if lab in LOCAL_OPS:
+            p, c, e, op = LOCAL_OPS[lab]
+            with warnings.catch_warnings():
+                warnings.simplefilter("ignore")
+                m = pm.add_covariate_effect(m.replace(dataset=m.dataset.copy()), p, c, e, op)
+                # give the existing effect a visible size
+                new = [q for q in m.parameters.names if q.startswith("POP_" + p + c) or (p + c) in q]
+                m = pm.set_initial_estimates(m, {q: 0.19 for q in new if m.parameters[q].lower <= 0.19 <= m.parameters[q].upper})
+        else:
+            m, _ = mgraph.apply(m, lab)
+    return m
 
 
 def cases(tier):
@@ -465,7 +501,7 @@ def run_shard(shard, tier):
     hist, cs = shard
     res = {"states": 0, "transitions": 0, "evaluations": 0, "distinct_nontrivial": 0, "violations": [], "samples": [],
            "outcomes": {}, "traces_validated_against_impl": 0, "values_compared": 0}
-    model = mgraph.build(hist)
+    model = build_state(hist)
     if model is None:
         return res
     for case in cs:
@@ -491,7 +527,7 @@ def replay(w):
     from vlib import mgraph
 
     start, labels = w["history"]
-    model = mgraph.build((start, tuple(labels)))
+    model = build_state((start, tuple(labels)))
     if model is None:
         return ["replay: history can no longer be built"]
     return run_case(model, tuple(w["case"]))[1]
